@@ -103,7 +103,9 @@ pub fn input_case(recs: &[Vec<u8>], container: &str) -> (IoCase, &'static str) {
             })
             .collect(),
         container: if container.ends_with("gzm") { "gzm".into() } else if container.ends_with("gz") { "gzc".into() } else { "plain".into() },
-        suffix: if fastq { ".fq".into() } else { ".fa".into() },
+        // "faX": FASTA text under a suffix the format table does not know (the batched writer sniffs the first byte, the mapped
+        // writer asks the table)
+        suffix: if fastq { ".fq".into() } else if container.starts_with("faX") { ".FA".into() } else { ".fa".into() },
     };
     (c, if container.ends_with("gz") || container.ends_with("gzm") { ".gz" } else { "" })
 }
